@@ -137,3 +137,27 @@ G('huff.bounded314', ['C15', 'C04'], 'huff', None, harness='h_huff_bounded_from_
   flags=['--unwind', '950', '--unwinding-assertions', '--max-field-sensitivity-array-size', '2000'], timeout=3600, bounded='T=314, 3 updates with symbolic symbols from the initial tree', what='bounded stand-in for T=314')
 claim('C15', 'Inductive step proved from an ARBITRARY well-formed tree (so for all histories) for 2..4 symbols in the quick tier and 5..6 in the thorough tier: UpdateCodeCount preserves the representation invariant WF (full binary prefix code over exactly the symbol set, sibling property), its result equals an independent reference update (Okumura LZHUF), the encoder bit string drives the decoder walk to the symbol leaf, and an update beyond counter capacity or with an out-of-range symbol is refused leaving the tree unchanged. Leaf accessors (GetChildNode, IsLeaf, GetNodeData, Verify*) are proved by contract for any tree size. The constructor is proved to establish WF for T = 2..6 and for T = 314.',
       'PI: the invariant step is proved per fixed symbol count T (loops fully unwound, unwinding assertions on); T = 314 inductive step is NOT decided (out of reach monolithically) - a bounded run (3 symbolic updates from the initial 314-symbol tree) stands in, labelled bounded. std::vector modelled as a view; allocation failure not modelled.')
+
+# ---- U-BSR (C04: bit reader)
+for fn_, rc_ in (('ctor', ['normal exit', 'exceptional exit']), ('ReadNextBit', NOEXC), ('ReadNext8Bits', NOEXC), ('EndOfStream', NOEXC), ('GetBitReadPos', NOEXC)):
+    G('bsr.' + fn_, ['C04'], 'bsr', 'BitStreamReader_' + fn_, reach=rc_, what='MSB-first bits of the input, 0 beyond the end; any buffer length')
+
+# ---- U-LZ (C04)
+BSRC = ['BitStreamReader_ReadNextBit', 'BitStreamReader_ReadNext8Bits', 'BitStreamReader_EndOfStream']
+HTC = ['AdaptiveHuffmanTree_GetRootNodeIndex', 'AdaptiveHuffmanTree_IsLeaf', 'AdaptiveHuffmanTree_GetChildNode', 'AdaptiveHuffmanTree_GetNodeData', 'AdaptiveHuffmanTree_UpdateCodeCount', 'AdaptiveHuffmanTree_make']
+LZ_TRUST = ['UpdateCodeCount preserves the structural tree invariant for the 314-symbol tree (assumed contract in contracts/lz.contracts; proved by unit huff only for T <= 6)',
+            'memcpy/memset: assumed contracts with ghost-address postcondition (contracts/lz.contracts)']
+def lz(fn, reach=NOEXC, replace=(), **kw):
+    G('lz.' + fn, ['C04'], 'lz', 'HuffLZ_' + fn, replace=BSRC + HTC + ['op2_memcpy', 'op2_memset'] + list(replace), reach=reach, trusted=LZ_TRUST, **kw)
+lz('GetOffsetModifiers', what='code arithmetic == LZHUF d_code/d_len tables for all 256 byte values')
+lz('WriteCharToBuffer')
+lz('GetRepeatOffset', replace=['HuffLZ_GetOffsetModifiers'], flags=['--unwind', '8', '--unwinding-assertions'], loop_contracts=True, timeout=900,
+   what='== reference DecodePosition over the reference bit sequence; result < 4096')
+lz('GetNextCode', solver='cvc5', timeout=900, what='tree walk terminates, stays in the arrays, returns a symbol < 314 (needs the quantified structural tree invariant)')
+lz('DecompressCode', reach=['normal exit', 'exceptional exit'], replace=['HuffLZ_GetNextCode', 'HuffLZ_GetRepeatOffset', 'HuffLZ_WriteCharToBuffer'], timeout=900,
+   what='one code appends 1..60 bytes, never moves the read index; refused update propagates without writing')
+lz('FillDecompressBuffer', reach=['normal exit', 'exceptional exit'], replace=['HuffLZ_DecompressCode'], timeout=900,
+   what='queue invariant: unread data never overwritten (DecompressCode precondition unread <= 4035 at every call), terminates')
+lz('CopyAvailableData', timeout=900, what='delivers min(size, unread) oldest bytes in order, advances the read index by the count')
+lz('GetInternalBuffer', reach=['normal exit', 'exceptional exit'], replace=['HuffLZ_FillDecompressBuffer'], timeout=900)
+lz('InitializeDecompressBuffer')
